@@ -8,28 +8,31 @@ open BtcVerif BtcVerif.Spec BtcVerif.Spec.Script BtcVerif.Model.Script
 
 /-- the signature-dropping loop: a script, or the CScriptInvalidError of a `raw_iter` -/
 theorem msDropSigs_cases (st : St) (isig : Int) (n k : Nat) (script : Bytes)
-    (hel : ∀ x ∈ st.stack, x.length < 2 ^ 32)
+    (hel : ∀ x ∈ st.stack, x.length < 2 ^ 32) (hlen : script.length ≤ MAX_SCRIPT_SIZE)
     (hidx : ∀ j : Nat, k ≤ j → j < k + n → 1 ≤ isig + j ∧ isig + j ≤ st.stack.length) :
-    (∃ r, msDropSigs st isig n k script = .ok r) ∨
+    (∃ r, msDropSigs st isig n k script = .ok r ∧ r.length ≤ MAX_SCRIPT_SIZE) ∨
     msDropSigs st isig n k script = .error (.invalid st.cap) := by
   induction n generalizing k script with
-  | zero => left; exact ⟨script, rfl⟩
+  | zero => left; exact ⟨script, rfl, hlen⟩
   | succ n ih =>
     obtain ⟨h1, h2⟩ := hidx k (Nat.le_refl _) (by omega)
     obtain ⟨x, hx, hxm, _⟩ := getTop?_pos st.stack (isig + k) h1 h2
-    obtain ⟨e, he⟩ := encodeOpPushdata_ok x (hel x hxm)
+    have he := encodeOpPushdata_eq x (hel x hxm)
+    have hpat := pushEnc_pat x (hel x hxm)
     simp only [msDropSigs, hx, pyIdx, he, bind, Except.bind]
-    rcases findAndDelete_cases st.cap script e with ⟨r, hf⟩ | hf
+    rcases findAndDelete_cases st.cap script (Ref.pushEnc x) with ⟨r, hf⟩ | hf
     · simp only [hf]
-      exact ih (k + 1) r (fun j hj1 hj2 => hidx j (by omega) (by omega))
+      have hrl : r.length ≤ MAX_SCRIPT_SIZE := by have := findAndDelete_length_le hpat hf; omega
+      exact ih (k + 1) r hrl (fun j hj1 hj2 => hidx j (by omega) (by omega))
     · right; simp only [hf]
 
 /-- outcome of the signature/key matching loop -/
 def MsOut (c : Ctx) (st : St) (sop : Nat) (r : M Bool) : Prop :=
   (∃ b, r = .ok b) ∨ r = raiseNamed sop st ∨ r = .error (.invalid st.cap) ∨
-    (r = .error (.py "IndexError") ∧ c.inIdx < 0)
+    (∃ cls, r = .error (.py cls) ∧ c.Raises cls)
 
-theorem msLoop_cases (c : Ctx) (sop : Nat) (script : Bytes) (st : St) (m : Nat) :
+theorem msLoop_cases (c : Ctx) (sop : Nat) (script : Bytes) (hlen : script.length ≤ MAX_SCRIPT_SIZE) (st : St)
+    (m : Nat) :
     ∀ (isig sigs ikey keys : Int), keys.toNat = m → 1 ≤ sigs → sigs ≤ keys → 1 ≤ isig → 1 ≤ ikey →
       isig + sigs ≤ st.stack.length + 1 → ikey + keys ≤ st.stack.length + 1 →
       MsOut c st sop (msLoop c sop script st isig sigs ikey keys) := by
@@ -40,7 +43,7 @@ theorem msLoop_cases (c : Ctx) (sop : Nat) (script : Bytes) (st : St) (m : Nat) 
     obtain ⟨pk, hpk, _, _⟩ := getTop?_pos st.stack ikey hk1 (by omega)
     rw [msLoop]
     simp only [hsig, hpk, pyIdx, bind, Except.bind]
-    rcases checkSig_cases c st.cap sig pk script with ⟨ok, hk⟩ | hk | ⟨hk, hneg⟩
+    rcases checkSig_cases c st.cap sig pk script hlen with ⟨ok, hk⟩ | hk | ⟨cls, hk, hneg⟩
     · simp only [hk]
       cases ok
       · simp only [Bool.false_eq_true, if_false]
@@ -58,7 +61,7 @@ theorem msLoop_cases (c : Ctx) (sop : Nat) (script : Bytes) (st : St) (m : Nat) 
             (by omega)
         · left; exact ⟨_, rfl⟩
     · right; right; left; simp only [hk]
-    · right; right; right; simp only [hk]; exact ⟨trivial, hneg⟩
+    · right; right; right; simp only [hk]; exact ⟨cls, rfl, hneg⟩
 
 section arms
 variable {c : Ctx} {B : Nat} {st : St} {sop : Nat}
@@ -115,7 +118,7 @@ theorem msTail_good (fl : Flags) (success : Bool) (s al : List Bytes) (vf : List
       · simp only [hae, if_false, Good, Lim, ElemsLe]
         exact ⟨⟨by omega, q2, hrest, q4⟩, hn2⟩
 
-theorem checkMultiSig_good (fl : Flags) (script : Bytes) (h : Pre B st) (hn : Named sop) (hB : 520 ≤ B)
+theorem checkMultiSig_good (fl : Flags) (script : Bytes) (hsl : script.length ≤ MAX_SCRIPT_SIZE) (h : Pre B st) (hn : Named sop) (hB : 520 ≤ B)
     (hB2 : B < 2 ^ 32) : Good c B (checkMultiSig c fl sop script st) := by
   unfold checkMultiSig
   obtain ⟨nm, hnm⟩ := Option.isSome_iff_exists.mp hn
@@ -159,15 +162,15 @@ theorem checkMultiSig_good (fl : Flags) (script : Bytes) (h : Pre B st) (hn : Na
   rw [if_neg hl3]
   have hel : ∀ x ∈ (⟨s, al, vf, pb, n + keys.toNat⟩ : St).stack, x.length < 2 ^ 32 := by
     intro x hx; have := p3 x hx; omega
-  rcases msDropSigs_cases ⟨s, al, vf, pb, n + keys.toNat⟩ (2 + keys + 1) sigs.toNat 0 script hel
-      (by intro j _ hj; dsimp only; omega) with ⟨sc, hds⟩ | hds
+  rcases msDropSigs_cases ⟨s, al, vf, pb, n + keys.toNat⟩ (2 + keys + 1) sigs.toNat 0 script hel hsl
+      (by intro j _ hj; dsimp only; omega) with ⟨sc, hds, hscl⟩ | hds
   · simp only [hds]
     have hm : (2 + keys + 1 + sigs - 1).toNat < s.length := by omega
     by_cases hpos : sigs > 0
     · rw [if_pos hpos]
-      rcases msLoop_cases c sop sc ⟨s, al, vf, pb, n + keys.toNat⟩ keys.toNat (2 + keys + 1) sigs 2 keys rfl
+      rcases msLoop_cases c sop sc hscl ⟨s, al, vf, pb, n + keys.toNat⟩ keys.toNat (2 + keys + 1) sigs 2 keys rfl
           (by omega) (by omega) (by omega) (by omega) (by dsimp only; omega) (by dsimp only; omega) with
-        ⟨b, hb⟩ | hb | hb | ⟨hb, hneg⟩
+        ⟨b, hb⟩ | hb | hb | ⟨cls, hb, hneg⟩
       · simp only [hb]
         have := msTail_good (c := c) (sop := sop) fl b s al vf pb (n + keys.toNat) _ hm hl2 hn2 hn hB
         simpa only [bind, Except.bind, pyIdx] using this
